@@ -19,7 +19,7 @@ import json
 
 from harness.core import Ctx, Driver, InfraError
 from harness.props.c13_gen import gen_case
-from harness.props.c13_oracle import RealCase, Spec, Undefined
+from harness.props.c13_oracle import RealCase, Spec, Undefined, Unlinked
 
 ID = "C13"
 CLAIM = {
@@ -157,6 +157,13 @@ def check_case(ctx: Ctx, case, reply, suite="convert"):
             kwargs = [(k, rc.u.from_json(v)) for k, v in call["kwargs"]]
             try:
                 exp = canon_value(rc.u, spec.expected(args, kwargs))
+            except Unlinked as e:
+                exp = None
+                if "value" in out:
+                    ctx.fail("create:unlinked-field-accepted",
+                             f"a converter was produced and returned a value although the linking rules leave the "
+                             f"destination field {e} without a link (required, or optional under the forbidding policy)",
+                             case)
             except Undefined:
                 exp = None
             if case["api"] == "convert" and out.get("exc") == "ProviderNotFoundError":
@@ -318,7 +325,7 @@ def run(ctx: Ctx):
         except InfraError:
             drv = None
     run_cases(ctx, _fixed_cases(), drv, "convert")
-    n = ctx.budget(1800, 24000)
+    n = ctx.budget(1800, 19000)
     batch = 500
     done = 0
     while done < n:
